@@ -36,6 +36,7 @@ type ev struct {
 	id             string
 	before, after  string
 	accepted, check bool
+	acc             string // accessor views (ClockBefore/ClockAfter) that disagree with the fields
 }
 
 type tr struct {
@@ -44,7 +45,19 @@ type tr struct {
 }
 
 func snap(kind string, tx *am.Transition) ev {
-	return ev{kind, tx.Id, fmt.Sprint(tx.TimeBefore), fmt.Sprint(tx.TimeAfter), tx.IsAccepted.Load(), tx.Mutation.IsCheck}
+	// a tracer may read the times through the accessors at any hook (also early ones)
+	acc := ""
+	names := tx.Machine.StateNames()
+	cb, ca := tx.ClockBefore(), tx.ClockAfter()
+	for i, n := range names {
+		if i < len(tx.TimeBefore) && cb[n] != tx.TimeBefore[i] {
+			acc = fmt.Sprintf("ClockBefore()[%s]=%d but TimeBefore=%d at %s", n, cb[n], tx.TimeBefore[i], kind)
+		}
+		if i < len(tx.TimeAfter) && ca[n] != tx.TimeAfter[i] {
+			acc = fmt.Sprintf("ClockAfter()[%s]=%d but TimeAfter=%d at %s", n, ca[n], tx.TimeAfter[i], kind)
+		}
+	}
+	return ev{kind, tx.Id, fmt.Sprint(tx.TimeBefore), fmt.Sprint(tx.TimeAfter), tx.IsAccepted.Load(), tx.Mutation.IsCheck, acc}
 }
 func (t *tr) TransitionInit(tx *am.Transition)   { *t.log = append(*t.log, snap("init", tx)) }
 func (t *tr) TransitionStart(tx *am.Transition)  { *t.log = append(*t.log, snap("start", tx)) }
@@ -127,6 +140,11 @@ func main() {
 			bad := ""
 			if fmt.Sprint(log1) != fmt.Sprint(log2) {
 				bad = "two bound tracers saw different streams"
+			}
+			for _, e := range log1 {
+				if e.acc != "" && bad == "" {
+					bad = "accessor view differs from the transition's times: " + e.acc
+				}
 			}
 			// init start [finals] end per transition, no interleaving, chained times
 			i := 0
